@@ -49,6 +49,7 @@ def configs(tier, seed):
     for sig in (True, False):
         out.append(dict(name="metric sigmoid=%s" % sig, h="metric", sigmoid=sig, n=3 if q else 4))
     out.append(dict(name="bounds-guards", h="guards"))
+    out.append(dict(name="300 samples in 200 chunks (indices past 255 in small chunks)", h="highids", nt=300, k=200, chunks=[3, 150, 199]))
     out.append(dict(name="cli nt=3", h="cli", nt=3, kmax=4))
     if not q:
         out.append(dict(name="cli nt=4", h="cli", nt=4, kmax=7))
@@ -70,6 +71,8 @@ def fixtures(cfg):
         return [dict(n=10, k=3, c=1), dict(n=0, k=2, c=1), dict(n=5, k=12, c=11), dict(n=10, k=10, c=9)]
     if cfg["h"] == "cli":
         return [dict(k=2, order0=1, p0_0=0.1, p1_0=-0.3, p2_0=0.7, p3_0=0.2), dict(k=4, order0=2, p0_0=0.5, p1_0=0.5, p2_0=-0.1, p3_0=0.0)]
+    if cfg["h"] == "highids":
+        return [dict(chunk=1, p0_0=0.4, p1_0=-0.2, p2_0=0.9)]
     if cfg["h"] == "arith_pair":
         return [dict(n=10, k=3, c=1), dict(n=4, k=9, c=7)]
     return [dict()]
@@ -297,6 +300,43 @@ def h_assemble(ctx, cfg):
     return seq
 
 
+def h_highids(ctx, cfg):
+    """sample indices beyond every narrow integer range in a chunk that holds only a few pairs: 300 samples in 200 chunks
+    (224-225 pairs each); one chunk (solver-chosen among an early, a middle and the last one) is computed, saved and loaded"""
+    np = ctx.np
+    dc = ctx.mod("batchie.distance_calculation")
+    core = ctx.mod("batchie.core")
+    mse = ctx.mod("batchie.distance.mse")
+    nt, k = cfg["nt"], cfg["k"]
+    holder = core.ThetaHolder(n_thetas=nt)
+    special = {0: ctx.real("p0_0"), nt - 1: ctx.real("p1_0"), 256: ctx.real("p2_0")}
+    preds = []
+    for i in range(nt):
+        p = special.get(i, 0.001 * i)
+        preds.append(p)
+        holder.add_theta(_Theta(np.array([p], dtype=float)))
+    chunks = cfg["chunks"]
+    c = chunks[int(ctx.int("chunk", 0, len(chunks) - 1))]
+    m = dc.calculate_pairwise_distance_matrix_on_predictions(holder, mse.MSEDistance(sigmoid=False), None, chunk_index=c, n_chunks=k)
+    n = m.current_index
+    before = list(zip(m.row_indices.tolist()[:n], m.col_indices.tolist()[:n], m.values.tolist()[:n]))
+    want = list(dc.get_lower_triangular_indices_chunk(nt, c, k))
+    ctx.prove([(int(i), int(j)) for i, j, _ in before] == [(int(i), int(j)) for i, j in want], "a chunk holds exactly the pairs of its index chunk")
+    fn = ctx.tmp("high_%d.h5" % c)
+    m.save(fn)
+    back = dc.ChunkedDistanceMatrix.load(fn)
+    nb = back.current_index
+    after = list(zip(back.row_indices.tolist()[:nb], back.col_indices.tolist()[:nb], back.values.tolist()[:nb]))
+    same = len(before) == len(after)
+    for (i, j, v), (i2, j2, v2) in zip(before, after):
+        same = ctx.And(same, i == i2, j == j2, ctx.eq(v, v2))
+    ctx.prove(same, "a saved and loaded chunk holds the same (row, column, value) entries (sample indices past 255)",
+              key="chunk entries changed by save/load")
+    for i, j, v in before[:3] + before[-3:]:
+        ctx.prove(ctx.eq(v, (preds[int(i)] - preds[int(j)]) * (preds[int(i)] - preds[int(j)])), "entry (i,j) is the metric of the two predictions")
+    return c
+
+
 def h_incomplete(ctx, cfg):
     """a combination that misses a non-empty chunk refuses to densify"""
     dc = ctx.mod("batchie.distance_calculation")
@@ -436,4 +476,4 @@ def h_cli(ctx, cfg):
 
 def run(ctx, cfg):
     return {"cli": h_cli, "arith": h_arith, "arith_pair": h_arith_pair, "pipeline": h_pipeline, "assemble": h_assemble,
-            "incomplete": h_incomplete, "metric": h_metric, "guards": h_guards}[cfg["h"]](ctx, cfg)
+            "incomplete": h_incomplete, "highids": h_highids, "metric": h_metric, "guards": h_guards}[cfg["h"]](ctx, cfg)
